@@ -165,22 +165,22 @@ Definition event_item_c (e : aevent) (styles : list (str * option astyle)) : res
 (* ---------------------------------------------------------------- ReadFromSSAWithOptions *)
 (* the reader's state; [c_fmt] is the variable format map[int]string: None = the nil map it is declared as (L143),
    Some l = a map made at a section header (L165, L172) with the keys 0 .. len(l)-1 *)
-Record cstate := mkCstate { c_sect : asect; c_fmt : option (list str); c_info : ainfo;
+Record acstate := mkAcstate { c_sect : asect; c_fmt : option (list str); c_info : ainfo;
                             c_styles : list astyle; c_events : list aevent }.
-Definition cstate0 : cstate := mkCstate SNone None ainfo0 [] [].
+Definition acstate0 : acstate := mkAcstate SNone None ainfo0 [] [].
 (* reading a map never panics: the nil map reads as the empty one *)
 Definition fmt_read (f : option (list str)) : list str := match f with Some l => l | None => [] end.
-Definition c_erase (s : cstate) : rstate := mkRstate (c_sect s) (fmt_read (c_fmt s)) (c_info s) (c_styles s) (c_events s).
+Definition c_erase (s : acstate) : rstate := mkRstate (c_sect s) (fmt_read (c_fmt s)) (c_info s) (c_styles s) (c_events s).
 Definition sect_unknown (x : asect) : bool := match x with SUnknown => true | _ => false end.
 
 (* if strings.HasPrefix(line, "[") && strings.HasSuffix(line, "]") { switch strings.ToLower(line[1 : len(line)-1]) *)
-Definition ssa_header_h (unk : res unit) (s : cstate) (line : str) : res cstate :=
+Definition ssa_header_h (unk : res unit) (s : acstate) (line : str) : res acstate :=
   do inner <- slice_range line 1 (length line - 1) 162;
   match section_of inner with
-  | SEvents => Ok (mkCstate SEvents (Some []) (c_info s) (c_styles s) (c_events s))
-  | SInfo => Ok (mkCstate SInfo (c_fmt s) (c_info s) (c_styles s) (c_events s))
-  | SStyles => Ok (mkCstate SStyles (Some []) (c_info s) (c_styles s) (c_events s))
-  | _ => do _ <- unk; Ok (mkCstate SUnknown (c_fmt s) (c_info s) (c_styles s) (c_events s))
+  | SEvents => Ok (mkAcstate SEvents (Some []) (c_info s) (c_styles s) (c_events s))
+  | SInfo => Ok (mkAcstate SInfo (c_fmt s) (c_info s) (c_styles s) (c_events s))
+  | SStyles => Ok (mkAcstate SStyles (Some []) (c_info s) (c_styles s) (c_events s))
+  | _ => do _ <- unk; Ok (mkAcstate SUnknown (c_fmt s) (c_info s) (c_styles s) (c_events s))
   end.
 (* for idx, item := range strings.Split(content, ",") { format[idx] = strings.TrimSpace(item) }: a store into the map *)
 Definition format_store_c (f : option (list str)) (cells : list str) : res (option (list str)) :=
@@ -189,16 +189,16 @@ Definition format_store_c (f : option (list str)) (cells : list str) : res (opti
   | _ => do m <- deref f 216; Ok (Some (overlay cells m))
   end.
 (* switch sectionName { case script info: si.parse; case events, styles: Format line | row } *)
-Definition ssa_dispatch_c (s : cstate) (header content : str) : res cstate :=
+Definition ssa_dispatch_c (s : acstate) (header content : str) : res acstate :=
   match c_sect s with
   | SInfo =>
     (* si = &ssaScriptInfo{} (L137); parse has no index expression *)
     do info' <- info_parse (c_info s) header content;
-    Ok (mkCstate (c_sect s) (c_fmt s) info' (c_styles s) (c_events s))
+    Ok (mkAcstate (c_sect s) (c_fmt s) info' (c_styles s) (c_events s))
   | SEvents | SStyles =>
     if str_eqb header n_format then
       do m <- format_store_c (c_fmt s) (map trim_space (split_byte comma content));
-      Ok (mkCstate (c_sect s) m (c_info s) (c_styles s) (c_events s))
+      Ok (mkAcstate (c_sect s) m (c_info s) (c_styles s) (c_events s))
     else
       let fmt := fmt_read (c_fmt s) in
       if Nat.eqb (length fmt) 0 then Err EParse          (* L220: no format provided *)
@@ -206,10 +206,10 @@ Definition ssa_dispatch_c (s : cstate) (header content : str) : res cstate :=
         match c_sect s with
         | SEvents =>
           do e <- event_from_string_c header content fmt;
-          Ok (mkCstate (c_sect s) (c_fmt s) (c_info s) (c_styles s) (c_events s ++ [e]))
+          Ok (mkAcstate (c_sect s) (c_fmt s) (c_info s) (c_styles s) (c_events s ++ [e]))
         | _ =>
           do st <- style_from_string_c content fmt;
-          Ok (mkCstate (c_sect s) (c_fmt s) (c_info s) (c_styles s ++ [st]) (c_events s))
+          Ok (mkAcstate (c_sect s) (c_fmt s) (c_info s) (c_styles s ++ [st]) (c_events s))
         end
   | _ => Ok s
   end.
@@ -217,7 +217,7 @@ Definition ssa_dispatch_c (s : cstate) (header content : str) : res cstate :=
    if len(split) < 2 || split[0] == "" { invalid line; continue }
    header = TrimSpace(split[0]); content = TrimSpace(Join(split[1:], ":")); switch sectionName { ... }
    [inv] = what the invalid-line branch does before continue *)
-Definition ssa_kv_h (inv : res unit) (s : cstate) (line : str) : res cstate :=
+Definition ssa_kv_h (inv : res unit) (s : acstate) (line : str) : res acstate :=
   let split := split_byte 58 line in
   do bad <- (if Nat.ltb (length split) 2 then Ok true else do h <- index split 0 196; Ok (Nat.eqb (length h) 0));
   if bad then do _ <- inv; Ok s
@@ -226,7 +226,7 @@ Definition ssa_kv_h (inv : res unit) (s : cstate) (line : str) : res cstate :=
     do rest <- slice_from split 1 203;
     ssa_dispatch_c s (trim_space h) (trim_space (join [58] rest)).
 (* one (trimmed, non-empty) line; [unk], [inv]: what the unknown-section and the invalid-line branches do *)
-Definition ssa_line_h (unk inv : res unit) (s : cstate) (line : str) : res cstate :=
+Definition ssa_line_h (unk inv : res unit) (s : acstate) (line : str) : res acstate :=
   if has_prefix [91] line && has_suffix [93] line then ssa_header_h unk s line
   else if sect_unknown (c_sect s) then Ok s
   else
@@ -234,13 +234,13 @@ Definition ssa_line_h (unk inv : res unit) (s : cstate) (line : str) : res cstat
     do semi <- (if Nat.ltb 0 (length line) then do c <- index line 0 189; Ok (c =? 59) else Ok false);
     if semi then
       do r <- slice_from line 1 190;
-      Ok (mkCstate (c_sect s) (c_fmt s) (add_comment (trim_space r) (c_info s)) (c_styles s) (c_events s))
+      Ok (mkAcstate (c_sect s) (c_fmt s) (add_comment (trim_space r) (c_info s)) (c_styles s) (c_events s))
     else ssa_kv_h inv s line.
-Definition ssa_step_h (unk inv : res unit) (s : cstate) (first : bool) (raw : str) : res cstate :=
+Definition ssa_step_h (unk inv : res unit) (s : acstate) (first : bool) (raw : str) : res acstate :=
   let line0 := trim_space raw in
   let line := if first then trim_prefix bom3 line0 else line0 in
   if Nat.eqb (length line) 0 then Ok s else ssa_line_h unk inv s line.
-Fixpoint ssa_run_h (unk inv : res unit) (s : cstate) (first : bool) (ls : list str) : res cstate :=
+Fixpoint ssa_run_h (unk inv : res unit) (s : acstate) (first : bool) (ls : list str) : res acstate :=
   match ls with
   | [] => Ok s
   | l :: r => match ssa_step_h unk inv s first l with
@@ -257,12 +257,12 @@ Fixpoint items_loop_c (evs : list aevent) (m : list (str * option astyle)) : res
               else items_loop_c r m
   end.
 (* o.Metadata = si.metadata(); o.Styles[st.ID] = st: o.Styles is made by NewSubtitles (L135), st is a composite literal *)
-Definition finish_c (s : cstate) : res adoc :=
+Definition finish_c (s : acstate) : res adoc :=
   let m := styles_map (c_styles s) in
   do items <- items_loop_c (c_events s) m;
   Ok (mkAdoc (Some (c_info s)) m items).
 Definition read_ssa_lines_h (unk inv : res unit) (ls : list str) (scan_err : bool) : res adoc :=
-  match ssa_run_h unk inv cstate0 true ls with
+  match ssa_run_h unk inv acstate0 true ls with
   | Ok s => if scan_err then Err EIO else finish_c s
   | Err k => Err k
   | Panic p => Panic p
